@@ -92,6 +92,9 @@ void h_ts_anno(void) {
                                                    && ts->index[1]->entries[n1].offset == (uint64_t) offset && vg_n_index == 0)
                                                 : (ts->index[1]->header.entry_count == 0 && vg_n_index >= 1)),
                      "C11: the entry is appended in order; a full level is written out and restarted");
+    { unsigned l; __CPROVER_assume(l >= 1 && l < JLS_SUMMARY_LEVEL_COUNT);
+      __CPROVER_assert(rc != 0 || ts->index[l] == NULL || (ts->summary[l] != NULL && ts->index[l]->header.entry_count < vg_df && ts->summary[l]->entry_count == ts->index[l]->header.entry_count),
+                       "C11: after a successful call every level again holds fewer than decimate_factor entries, index and summary in step (arbitrary level)"); }
     VG_REACH(ts_anno_returns);
     if (rc == 0 && vg_n_index >= 3) { VG_REACH(ts_anno_three_levels_committed); }
     if (rc != 0) { VG_REACH(ts_anno_error); }
@@ -103,6 +106,9 @@ void h_ts_utc(void) {
     int32_t rc = jls_wr_ts_utc(ts, sample_id, offset, utc);
     __CPROVER_assert(rc != 0 || vg_n_index == vg_n_summary, "C05: as many SUMMARY chunks as INDEX chunks");
     __CPROVER_assert(rc != 0 || vg_last_kind != VG_KIND_INDEX, "C05: the last chunk written is never a dangling INDEX");
+    { unsigned l; __CPROVER_assume(l >= 1 && l < JLS_SUMMARY_LEVEL_COUNT);
+      __CPROVER_assert(rc != 0 || ts->index[l] == NULL || (ts->summary[l] != NULL && ts->index[l]->header.entry_count < vg_df && ts->summary[l]->entry_count == ts->index[l]->header.entry_count),
+                       "C12: after a successful call every level again holds fewer than decimate_factor entries, index and summary in step (arbitrary level)"); }
     VG_REACH(ts_utc_returns);
     if (rc == 0 && vg_n_index >= 2) { VG_REACH(ts_utc_two_levels_committed); }
 }
